@@ -5,7 +5,6 @@ minute / every instant (arithmetic, not enumeration).
 -/
 import KlogV.Lemmas.Clock
 import KlogV.Props.Tables
-import KlogV.Props.GoSrc
 namespace KlogV.C17
 
 /-- the current wall-clock time as klog reads it: `now.h:now.min`, unshifted, 24-hour -/
